@@ -61,6 +61,19 @@ impl Record {
     }
 }
 
+#[cfg(memcrs_verif)]
+impl Record {
+    /// (timestamp, cas, flags, ttl) of the record.
+    pub fn verif_parts(&self) -> (u64, u64, u32, u32) {
+        (
+            self.header.timestamp,
+            self.header.cas,
+            self.header.flags,
+            self.header.time_to_live,
+        )
+    }
+}
+
 impl PartialEq for Record {
     fn eq(&self, other: &Self) -> bool {
         self.value == other.value
